@@ -210,6 +210,13 @@ Dev_TwoWayHalfAdded(e) ==
 Dev_InvalidNullableKindAccepted(e) ==
     /\ e.op.op = "AddAttr" /\ e.ret = "ok" /\ e.op.attr.k \notin ValidKinds /\ e.op.attr.null
 
+\* (fixed) RemoveAttr / RemoveRel found the field by its name and then deleted the map entry of that
+\* KEY: a field kept under another key (a type declared by hand and given to AddType) stayed
+Dev_RemoveKeepsHandKeyedField(e) ==
+    /\ e.op.op \in {"RemoveAttr", "RemoveRel"} /\ e.ret = "ok" /\ e.post = e.pre
+    /\ \E i \in 1..Len(e.pre) : /\ e.pre[i].name = e.op.t
+                                 /\ e.op.n \in DOMAIN (IF e.op.op = "RemoveAttr" THEN e.pre[i].attrs ELSE e.pre[i].rels)
+
 \* Check misses an inverse that points to another type
 Dev_CheckIgnoresInverseTarget(e) ==
     /\ e.op.op = "Check" /\ e.ret = "ok" /\ e.post = e.pre
